@@ -23,6 +23,7 @@ RULE = ('strictly monotonic 1-D coordinates (ascending/descending, exactly '
         'lookups (time2idx) on CF time coordinates. evaluations = lookups '
         '(batches); non-trivial = batch holds in-range and out-of-range '
         'values; distinct = digest of the spec.')
+RULE += (' Also: axes of 13-40 cells with repeated query values, a second coordinate in the same file (y = 2x with its own bounds) looked up after the first, cftime noleap calendars, coordinates read from disk.')
 ASSUMPTIONS = [
     'a value exactly on an interior edge may be attributed to either '
     'neighbour; exact ties of "nearest" accept both neighbours',
